@@ -9,11 +9,11 @@ package main
 // is decided by Fourier–Motzkin elimination (sound over the rationals, hence over ints).
 
 import (
-	cfgpkg "golang.org/x/tools/go/cfg"
 	"fmt"
 	"go/ast"
 	"go/token"
 	"go/types"
+	cfgpkg "golang.org/x/tools/go/cfg"
 	"sort"
 	"strconv"
 	"strings"
@@ -43,13 +43,13 @@ func (l *lin) add(o *lin, k int64) *lin {
 	}
 	return r
 }
-func (l *lin) neg() *lin          { return newLin().add(l, -1) }
-func (l *lin) plus(c int64) *lin  { r := l.add(newLin(), 1); r.c += c; return r }
-func linConst(c int64) *lin       { return &lin{t: map[string]int64{}, c: c} }
-func linSym(s string) *lin        { return &lin{t: map[string]int64{s: 1}} }
-func (l *lin) sub(o *lin) *lin    { return l.add(o, -1) }
-func (l *lin) isConst() bool      { return len(l.t) == 0 }
-func (l *lin) nsyms() int         { return len(l.t) }
+func (l *lin) neg() *lin              { return newLin().add(l, -1) }
+func (l *lin) plus(c int64) *lin      { r := l.add(newLin(), 1); r.c += c; return r }
+func linConst(c int64) *lin           { return &lin{t: map[string]int64{}, c: c} }
+func linSym(s string) *lin            { return &lin{t: map[string]int64{s: 1}} }
+func (l *lin) sub(o *lin) *lin        { return l.add(o, -1) }
+func (l *lin) isConst() bool          { return len(l.t) == 0 }
+func (l *lin) nsyms() int             { return len(l.t) }
 func (l *lin) mentions(s string) bool { return l.t[s] != 0 }
 
 func (l *lin) String() string {
@@ -432,9 +432,10 @@ func (ip *idxProver) lenOf(fn *Func, e ast.Expr, depth int) *lin {
 }
 
 // madeLen: the length of a slice that is made / written as a literal in this function:
-//   x := make(T, n)          x := T{a, b}
-//   v := S{F: make(T, n)}    → len(v.F) = n
-//   p.F = make(T, n)         (the only assignment to p.F, dominating)
+//
+//	x := make(T, n)          x := T{a, b}
+//	v := S{F: make(T, n)}    → len(v.F) = n
+//	p.F = make(T, n)         (the only assignment to p.F, dominating)
 func (ip *idxProver) madeLen(fn *Func, e ast.Expr, depth int) *lin {
 	info := fn.Info()
 	lenOfDef := func(def ast.Expr) *lin {
@@ -1411,6 +1412,8 @@ func substExpr(e ast.Expr, obj types.Object, repl ast.Expr, info *types.Info) as
 		return x
 	case *ast.ParenExpr:
 		return substExpr(x.X, obj, repl, info)
+	case *ast.UnaryExpr:
+		return &ast.UnaryExpr{Op: x.Op, X: substExpr(x.X, obj, repl, info)}
 	case *ast.SelectorExpr:
 		return &ast.SelectorExpr{X: substExpr(x.X, obj, repl, info), Sel: x.Sel}
 	case *ast.StarExpr:
